@@ -1787,6 +1787,68 @@ def _beta_reduce(mods: dict[str, Module], log: list[str]) -> None:
         log.append(f"{n} immediately applied lambda(s) reduced")
 
 
+def _always_raises(stmts: list[ast.stmt]) -> bool:
+    """Every path through `stmts` ends in a raise (simple statements, then `raise` or an if/else whose branches do)."""
+    if not stmts:
+        return False
+    for st in stmts[:-1]:
+        if not isinstance(st, (ast.Assign, ast.AnnAssign, ast.AugAssign, ast.Expr, ast.Pass)):
+            if isinstance(st, ast.If) and _always_raises(st.body) and not st.orelse:
+                continue    # guard clause that raises
+            return False
+    last = stmts[-1]
+    if isinstance(last, ast.Raise):
+        return True
+    if isinstance(last, ast.If) and last.orelse:
+        return _always_raises(last.body) and _always_raises(last.orelse)
+    return False
+
+
+RERAISING_TRY: list[dict] = []
+RERAISING_TRY_NODES: list[tuple[dict, list[ast.stmt], ast.ExceptHandler]] = []   # the same records with the statements themselves (for rules about exceptions)
+
+
+def _flatten_reraising_try(mods: dict[str, Module], log: list[str]) -> None:
+    """`try: BODY except E as e: ...; raise ...` (no else / finally, every handler ends in a raise on every path) runs BODY and nothing else whenever no
+    exception is raised: for the rules that read values it *is* BODY.  What the handlers raise is recorded (RERAISING_TRY) for the rules about exceptions."""
+    RERAISING_TRY.clear()
+    RERAISING_TRY_NODES.clear()
+    n = 0
+    for mod in mods.values():
+        for q, _, fn in _functions_of(mod):
+            def rewrite(stmts: list[ast.stmt]) -> list[ast.stmt]:
+                nonlocal n
+                out: list[ast.stmt] = []
+                for st in stmts:
+                    for fld in ("body", "orelse", "finalbody"):
+                        v = getattr(st, fld, None)
+                        if isinstance(v, list) and v and isinstance(v[0], ast.stmt) and not isinstance(st, (*FuncNode, ast.ClassDef)):
+                            setattr(st, fld, rewrite(v))
+                    for hd in getattr(st, "handlers", []) or []:
+                        hd.body = rewrite(hd.body)
+                    for cs in getattr(st, "cases", []) or []:
+                        cs.body = rewrite(cs.body)
+                    if isinstance(st, ast.Try) and st.handlers and not st.orelse and not st.finalbody and all(_always_raises(h.body) for h in st.handlers):
+                        for h in st.handlers:
+                            forms = []
+                            for r in [x for b in h.body for x in ast.walk(b) if isinstance(x, ast.Raise)]:
+                                if r.exc is None or (isinstance(r.exc, ast.Name) and r.exc.id == h.name):
+                                    forms.append("same")
+                                else:
+                                    forms.append("new:" + ast.unparse(r.exc)[:80])
+                            RERAISING_TRY_NODES.append(({"module": mod.name, "function": q, "raises": forms, "catches": ast.unparse(h.type) if h.type is not None else "everything"}, list(st.body), h))
+                            RERAISING_TRY.append({"module": mod.name, "relpath": mod.relpath, "function": q, "lineno": st.lineno, "catches": ast.unparse(h.type) if h.type is not None else "everything",
+                                                  "raises": forms, "body": [ast.unparse(b)[:200] for b in st.body]})
+                        out.extend(st.body)
+                        n += 1
+                        continue
+                    out.append(st)
+                return out
+            fn.body = rewrite(fn.body)
+    if n:
+        log.append(f"{n} try statement(s) whose handlers always re-raise read as their body")
+
+
 def _split_conditional_with(mods: dict[str, Module], log: list[str]) -> None:
     """`with f(x, mode=A if c else B) as v: body` with a pure test `c` is read as `if c: with f(.., A): body else: with f(.., B): body`, and inside a branch
     taken under `c` (resp. `not c`) a nested `if c:` keeps only the branch that can run."""
@@ -2338,6 +2400,7 @@ def canonicalise(mods: dict[str, Module]) -> dict:
     _inline_new_constants(mods, inv, cm_log)
     align_locals(mods, inv, loc_log)
     _map_to_comprehension(mods, cm_log)
+    _flatten_reraising_try(mods, cm_log)
     _inline_local_closures(mods, cm_log)
     _inline_procedure_closures(mods, cm_log)
     _inline_new_properties(mods, inv, cm_log)
@@ -2384,6 +2447,7 @@ def canonicalise(mods: dict[str, Module]) -> dict:
                     if isinstance(x, FuncNode) and (oc is None or x.name not in oc["methods"]):
                         new_functions.append(f"{mod.name}:{node.name}.{x.name}")
     return {"renamed_back": {k: v for k, v in sorted(ren.items())}, "locals": loc_log[:40], "inlined": inl.log[:40], "substituted": fwd_log[:60],
+            "reraising_try": list(RERAISING_TRY),
             "new_helpers": sorted(set(new_functions) | {f"{k[0]}:{(k[1] + '.') if k[1] else ''}{k[2]}" for k in inl.helpers})}
 
 
